@@ -7,33 +7,34 @@
 (* case (r0, history) for the real server (binding B2).                                     *)
 EXTENDS MC_C03
 
-VARIABLES phase, r0, hq, hdone, alone
-hvars == <<vars, phase, r0, hq, hdone, alone>>
+VARIABLES phase, r0, hdone, alone
+hvars == <<vars, phase, r0, hdone, alone>>
 
 RepReq(i, hl) == Req(Reps[i].f, Reps[i].s, Reps[i].a, hl)
 Summary == [proto |-> proto, frames |-> FramesOf(Fam(proto), out),
             cls |-> [i \in 1..Len(log) |-> log[i].cls], esc |-> esc]
 NoSummary == [proto |-> "none", frames |-> <<>>, cls |-> <<>>, esc |-> "none"]
 
-Hists == UNION {[1..n -> 1..Len(Reps)] : n \in 0..MaxHist}
-
 HistInit ==
     /\ \E hl \in HLs, i \in 1..Len(Reps) : r0 = i /\ InitConn(RepReq(i, hl), TreeOf(hl))
-    /\ hq \in Hists /\ hdone = <<>> /\ phase = "alone" /\ alone = NoSummary
+    /\ hdone = <<>> /\ phase = "alone" /\ alone = NoSummary
+
+\* after a connection has closed: serve one more request of the history (any representative, while
+\* the bound allows), or serve the target request again
+ServeMore(f) ==
+    /\ Len(hdone) < MaxHist
+    /\ \E i \in 1..Len(Reps) : StartConn(RepReq(i, rq.hl), f) /\ hdone' = Append(hdone, i)
+    /\ phase' = "hist"
+ServeFinal(f) == StartConn(RepReq(r0, rq.hl), f) /\ phase' = "final" /\ UNCHANGED hdone
 
 HistNext ==
-    \/ (~Closed /\ Step /\ UNCHANGED <<phase, r0, hq, hdone, alone>>)
-    \/ /\ Closed /\ phase = "alone"
+    \/ (~Closed /\ Step /\ UNCHANGED <<phase, r0, hdone, alone>>)
+    \/ /\ Closed /\ phase = "alone"                     \* remember the reply, put the pristine tree back
        /\ alone' = Summary
-       /\ IF hq = <<>>
-          THEN StartConn(RepReq(r0, rq.hl), TreeOf(rq.hl)) /\ phase' = "final" /\ UNCHANGED <<hq, hdone>>
-          ELSE StartConn(RepReq(hq[1], rq.hl), TreeOf(rq.hl)) /\ phase' = "hist"
-               /\ hq' = Tail(hq) /\ hdone' = Append(hdone, hq[1])
+       /\ (ServeMore(TreeOf(rq.hl)) \/ ServeFinal(TreeOf(rq.hl)))
        /\ UNCHANGED r0
-    \/ /\ Closed /\ phase = "hist"
-       /\ IF hq = <<>>
-          THEN StartConn(RepReq(r0, rq.hl), fs) /\ phase' = "final" /\ UNCHANGED <<hq, hdone>>
-          ELSE StartConn(RepReq(hq[1], rq.hl), fs) /\ hq' = Tail(hq) /\ hdone' = Append(hdone, hq[1]) /\ UNCHANGED phase
+    \/ /\ Closed /\ phase = "hist"                      \* artefacts stay
+       /\ (ServeMore(fs) \/ ServeFinal(fs))
        /\ UNCHANGED <<r0, alone>>
 HistSpec == HistInit /\ [][HistNext]_hvars
 
